@@ -1060,6 +1060,8 @@ func (w *Worker) callBuiltin(caller *frame, callpos token.Pos, fn *ssa.Builtin, 
 			return []Value(nil)
 		}
 		return dp.Cells[:n:n]
+	case "ssa:deferstack":
+		return &fr.defers
 	case "ssa:wrapnilchk":
 		recv := args[0]
 		if p, ok := recv.(*Value); ok && p == nil {
